@@ -979,6 +979,54 @@ func multiOrderUnits(maxPerSlot int) []unit {
 	return units
 }
 
+// family "same-id": one element id occurs twice, with different versions, inside
+// ONE action block (merged replication diffs look like this). Every version of
+// it is a changed element of its own: one action each, each paired with its own
+// predecessor.
+func sameIDUnits() []unit {
+	var units []unit
+	pairs := [][2]int{{2, 4}, {4, 2}, {4, 5}, {5, 4}, {3, 7}, {7, 3}}
+	for kind := 0; kind < 3; kind++ {
+		for a := 1; a <= 2; a++ {
+			for _, p := range pairs {
+				kind, a, p := kind, a, p
+				units = append(units, func(emit func(*Case)) {
+					for _, dsName := range []string{"osm", "custom"} {
+						for _, ign := range []bool{false, true} {
+							for _, third := range []bool{false, true} {
+								c := &Case{Family: "same-id", DS: dsName, Ignore: ign}
+								es := []Elem{{Kind: kind, ID: 10, Version: p[0], Visible: a == 2, Mark: 3001},
+									{Kind: kind, ID: 10, Version: p[1], Visible: a == 2, Mark: 3002}}
+								if third {
+									// another id between the two, and the same id once more in the other block
+									es = []Elem{es[0], {Kind: kind, ID: 11, Version: 4, Visible: a == 2, Mark: 3003}, es[1]}
+								}
+								other := Elem{Kind: kind, ID: 10, Version: 6, Visible: a == 1, Mark: 3004}
+								if a == 1 {
+									c.Modify = es
+									if third {
+										c.Delete = []Elem{other}
+									}
+								} else {
+									c.Delete = es
+									if third {
+										c.Modify = []Elem{other}
+									}
+								}
+								c.Hist = append(c.Hist,
+									Hist{Kind: kind, ID: 10, State: "present", Versions: []int{7, 2, 5, 1, 4, 3}},
+									Hist{Kind: kind, ID: 11, State: "present", Versions: []int{4, 5, 7, 1, 2}})
+								emit(c)
+							}
+						}
+					}
+				})
+			}
+		}
+	}
+	return units
+}
+
 // family "multi-status": every subset of the nine slots with one element each;
 // every modified/deleted element independently has a predecessor, no history,
 // a history without smaller version, or (own datasource) a failing history.
@@ -1085,7 +1133,7 @@ func main() {
 		families := []struct {
 			name  string
 			units []unit
-		}{{"single", single}, {"multi-order", multiOrderUnits(r.Pick(2, 3))}, {"multi-status", multiStatusUnits()}}
+		}{{"single", single}, {"multi-order", multiOrderUnits(r.Pick(2, 3))}, {"multi-status", multiStatusUnits()}, {"same-id", sameIDUnits()}}
 		for _, f := range families {
 			f := f
 			before := r.Evals()
